@@ -4,7 +4,6 @@ import (
 	"fmt"
 
 	"verif/mc/world"
-	"verif/mc/worldx"
 )
 
 func init() { Registry["dbg"] = dbg }
@@ -12,48 +11,19 @@ func init() { Registry["dbg"] = dbg }
 func dbg(tier string, args []string) int {
 	out := world.RealStdout
 	r := newRun("DBG", tier, "exploration")
-	d := &DKGRun{N: 2, T: 2}
-	d.Setup(r)
-	k := d.K
-	s := d.Init
-	// order A: node0 then node1 ; order B: node1 then node0
-	step := func(s *worldx.State, i int) *worldx.State {
-		ops := k.Pending(s, i)
-		c, _, err := k.OperateOp(s, i, ops[0].ID, nil)
-		if err != nil {
-			fmt.Fprintln(out, err)
-		}
-		c, _ = k.DrainEager(c, nil)
-		return c
+	c := newCrashRun(r, 2, 2, 1)
+	c.crashAt, c.crashPhase = []int{24}, []string{"post"}
+	got, err := c.runCeremony(r, false)
+	fmt.Fprintln(out, got, err, c.crashes)
+	for _, l := range c.log {
+		fmt.Fprintln(out, l)
 	}
-	a := step(step(s, 0), 1)
-	b := step(step(s, 1), 0)
-	fmt.Fprintln(out, a.Key() == b.Key(), a.KeyNoLog, b.KeyNoLog)
-	for i := range a.Snap {
-		if a.Snap[i] != b.Snap[i] {
-			sa, sb := k.C.Snapshot(a.Snap[i]), k.C.Snapshot(b.Snap[i])
-			for _, key := range sa.DiffKeys(sb) {
-				x, y := sa[key], sb[key]
-				for p := 0; p < len(x) && p < len(y); p++ {
-					if x[p] != y[p] {
-						lo := p - 80
-						if lo < 0 {
-							lo = 0
-						}
-						hi := p + 80
-						if hi > len(x) {
-							hi = len(x)
-						}
-						hj := p + 80
-						if hj > len(y) {
-							hj = len(y)
-						}
-						fmt.Fprintf(out, "node %d key %s differs at %d:\n A: %s\n B: %s\n", i, key, p, x[lo:hi], y[lo:hj])
-						break
-					}
-				}
-			}
-		}
+	for _, m := range c.w.Board.Log() {
+		fmt.Fprintf(out, "%3d %-45s from=%-7s to=%-7s\n", m.Offset, m.Event, m.SenderAddr, m.RecipientAddr)
+	}
+	for i, n := range c.w.Nodes {
+		fmt.Fprintf(out, "node %d offset %d pending %d\n", i, n.Offset(), len(n.PendingOps()))
+		n.Log.Keep = true
 	}
 	return 0
 }
